@@ -42,6 +42,9 @@ type realCase struct {
 	Ops    []script.Op `json:"program"`
 	Exit   int         `json:"expected_exit_status"` // -1: the child does not exit by itself with a status (signal / cancelled)
 	Cancel string      `json:"cancel,omitempty"`     // "" | ctx-cancel | ctx-deadline | method-cancel
+	// SlowSinkMs: the logger takes that long, once, over its third message (the child has long exited by then and what it wrote
+	// sits in the pipe): a slow consumer loses nothing and changes no result
+	SlowSinkMs int `json:"sink_slow_once_ms,omitempty"`
 }
 
 func (c realCase) withEnv() bool { return strings.HasSuffix(c.API, "-env") }
@@ -111,6 +114,9 @@ func evalReal(c realCase) (vs []viol, engineErr string) {
 
 func evalRealX(c realCase) (vs []viol, engineErr string, outcome string) {
 	rec := newRecorder()
+	if c.SlowSinkMs > 0 {
+		rec.stallAt, rec.stall = 3, time.Duration(c.SlowSinkMs)*time.Millisecond
+	}
 	ready := rec.expect(readyLine)
 	parent, cancelParent := context.WithCancel(context.Background())
 	if c.Cancel == "ctx-cancel-cause" {
@@ -502,6 +508,22 @@ func realCases(thorough bool) ([]realCase, realBound) {
 					cases = append(cases, realCase{Family: "volume", API: api, Exit: 0, Ops: ops})
 				}
 			}
+		}
+	}
+
+	// a sink that is slow once (1.5 s), the child writing ~60 KB (less than a pipe holds) in one go and exiting at once
+	for _, api := range []string{"execute", "output", "new-execute"} {
+		for _, streams := range []string{"o", "oe"} {
+			salt++
+			g := func(st byte) script.Gen {
+				return script.Gen{Stream: st, LineLen: 99, NLines: 300, WriteSize: 0, FinalNL: true, Salt: salt}
+			}
+			ops := []script.Op{script.Generate(g('o'))}
+			if streams == "oe" {
+				ops = []script.Op{script.Together(g('o'), g('e'))}
+			}
+			ops = append(ops, script.Exit(0))
+			cases = append(cases, realCase{Family: "slow-sink", API: api, Exit: 0, Ops: ops, SlowSinkMs: 1500})
 		}
 	}
 
